@@ -31,9 +31,21 @@ Section Sites.
              if all_subtypes tys (dvalues sg) then Ok tt else Err EAssert
     end.
 
-  (* ProblemParser.parse_grounded_numeric_fluent: the argument types are collected in a dict keyed by the
-     object NAME (a repeated argument collapses, finding D19) and zipped with the lifted signature *)
+  (* ProblemParser.parse_grounded_numeric_fluent (after the repair D19c): arity, every name known, then each
+     argument's type against the parameter at the same POSITION *)
   Definition problem_fluent (f : string) (args : list string) : result unit :=
+    match dget (d_funcs dom) f with
+    | None => Err EAssert
+    | Some sg =>
+        if negb (Nat.eqb (List.length args) (List.length sg)) then Err EValue
+        else do tys <- mapM type_of_name args;
+             if all_subtypes tys (dvalues sg) then Ok tt else Err EAssert
+    end.
+
+  (* TrajectoryParser (constructed with a problem), parse_grounded_numeric_fluent: the argument types are collected
+     in a dict keyed by the object NAME (a repeated argument collapses) and zipped with the lifted signature;
+     facts are NOT type-checked (only arity and that the names exist) *)
+  Definition trajectory_fluent (f : string) (args : list string) : result unit :=
     match dget (d_funcs dom) f with
     | None => Err EAssert
     | Some sg =>
@@ -42,10 +54,6 @@ Section Sites.
              let by_name := fold_left (fun acc nt => dset acc (fst nt) (snd nt)) (combine args tys) [] in
              if all_subtypes (dvalues by_name) (dvalues sg) then Ok tt else Err EAssert
     end.
-
-  (* TrajectoryParser (constructed with a problem): fluents are checked like in the problem parser;
-     facts are NOT type-checked (only arity and that the names exist) *)
-  Definition trajectory_fluent (f : string) (args : list string) : result unit := problem_fluent f args.
 
   Definition trajectory_fact (p : string) (args : list string) : result unit :=
     match dget (d_preds dom) p with
